@@ -337,7 +337,7 @@ func (r *Registry) sortOf1(t types.Type, key string) string {
 		return r.SortOf(n.Underlying())
 	}
 	if a, ok := t.(*types.Alias); ok {
-		return r.SortOf(types.Unalias(a))
+		return r.sortOf1(types.Unalias(a), key)
 	}
 	switch u := t.(type) {
 	case *types.Basic:
